@@ -8,7 +8,7 @@ equal index ⇔ equal text, so the model runs with `Text := Nat`):
   stream db|proj
   text <k> <hex>                 (ignored here: only identity of texts matters to the model)
   set <fid> <k> | rm <fid> | q <kind> <fid> <arg>           Database layer
-  pset <key> <k> | prm <key> | pq <kind> <key> <arg>        Project layer
+  pset <key> <k> | prm <key> | pren <old> <new> | pq <kind> <key> <arg>   Project layer
   impl … / #… / tag …            (ignored)
   end
 For every operation the model prints `m [ids=…] src=… salsa=… proj=… dirty=…[ reads=…]`, the three
@@ -96,6 +96,12 @@ def step (st : St) (line : String) : St × Option String :=
       let pr := projRemove st.pr key
       ({ st with pr := pr }, some s!"m ids={showIds pr} {showView pr.db}")
     | none => (st, some "bad-op")
+  | ["pren", o, n] =>
+    match o.toNat?, n.toNat? with
+    | some o, some n =>
+      let pr := projRename st.pr o n
+      ({ st with pr := pr }, some s!"m ids={showIds pr} {showView pr.db}")
+    | _, _ => (st, some "bad-op")
   | ["pq", k, key, a] =>
     match key.toNat?, a.toNat? with
     | some key, some a =>
